@@ -125,7 +125,8 @@ def lineSpecOfJson (j : Json) : Except String LineSpec := do
       indent := ← j.getObjValAs? Nat "indent", addr := ← strField j "addr",
       bytes := pairsOf (← strField j "bytes"), pad := ← j.getObjValAs? Nat "pad",
       mnem := ← strField j "mnem", gap := ← j.getObjValAs? Nat "gap", ops := ops,
-      annot := optStrField j "annot", comment := optStrField j "comment" })
+      annot := optStrField j "annot", comment := optStrField j "comment",
+      trail := (j.getObjValAs? Nat "trail").toOption.getD 0 })
   | "cont" => pure (.cont (← j.getObjValAs? Nat "indent") (← strField j "addr") (pairsOf (← strField j "bytes")))
   | "label" => pure (.label (← strField j "addr") (← strField j "name"))
   | "blank" => pure .blank
